@@ -24,7 +24,7 @@ def get_clebsch_gordan_coeffient(j1_double:int, j2_double:int):
     j2_double = int(j2_double)
     assert j1_double>=0
     assert j2_double>=0
-    ret = _get_clebsch_gordan_coeffient_cache(j1_double, j2_double)
+    ret = [(x,y.copy()) for x,y in _get_clebsch_gordan_coeffient_cache(j1_double, j2_double)] #caller may modify the result in place
     return ret
 
 
